@@ -402,7 +402,34 @@ Definition fw_score (all_lines : list string) : nat :=
   (if uniform_long lines then 1 else 0)
   + (if Nat.leb 3 (count_if date2_prefix lines) then 2 else 0)
   + (if Nat.leb 3 (count_if amt_at_end lines) then 1 else 0).
-Definition is_fixed_width (all_lines : list string) : bool := Nat.leb 3 (fw_score all_lines).
+
+(* the delimited-table guard: re.sub(r'(?<=\d),(?=\d{3})', '', l) on the non-blank, non-comment lines
+   (a comma between a digit and three digits is a thousands separator, not a field separator; the
+   look-behind sees the original text), then csv.reader's field count of every row.  csv.reader is
+   CPython library code: a parameter (csvcount; None = csv.Error), not modelled. *)
+Definition three_digits (s : string) : bool :=
+  match s with String a (String b (String c _)) => (is_digit a && is_digit b && is_digit c)%bool | _ => false end.
+Fixpoint strip_thousands (prev_digit : bool) (s : string) : string :=
+  match s with
+  | EmptyString => EmptyString
+  | String c r =>
+      if (Ascii.eqb c ch_comma && prev_digit && three_digits r)%bool then strip_thousands false r
+      else String c (strip_thousands (is_digit c) r)
+  end.
+Definition table_lines (lines : list string) : list string :=
+  map (strip_thousands false) (filter counted_line lines).
+
+Section FileKind.
+Variable csvcount : list string -> option (list nat).
+
+(* len(field_counts) == 1 and min(field_counts) >= 3 *)
+Definition looks_delimited (all_lines : list string) : bool :=
+  match csvcount (table_lines (firstn 20 all_lines)) with
+  | Some (n :: rest) => (forallb (Nat.eqb n) rest && Nat.leb 3 n)%bool
+  | _ => false
+  end.
+Definition is_fixed_width (all_lines : list string) : bool :=
+  (Nat.leb 3 (fw_score all_lines) && negb (looks_delimited all_lines))%bool.
 
 (* what cmd_inspect reports: fixed-width files return before auto-detection *)
 Inductive ireport := RFixedWidth | RNoDetect | RDetected (d : detected) (suggested : string).
@@ -412,3 +439,4 @@ Definition inspect_report (all_lines headers : list string) : ireport :=
        | Some d => RDetected d (suggest d)
        | None => RNoDetect
        end.
+End FileKind.
